@@ -26,23 +26,24 @@ import (
 
 // ReqRec is the recorded history of one request.
 type ReqRec struct {
-	ID        int
-	Client    int
-	Op        Op
-	Wire      *Wire
-	StartEv   int64
-	StatusEv  int64 // event number of the first status written (0: none)
-	EndEv     int64
-	Status    int
-	Statuses  []int // every WriteHeader call
-	Returned  bool
-	Panicked  string
-	StartT    time.Time
-	EndT      time.Time
-	Cancelled bool
-	Hostile   bool
-	Root      string
-	BodyLen   int
+	ID          int
+	Client      int
+	Op          Op
+	Wire        *Wire
+	StartEv     int64
+	StatusEv    int64 // event number of the first status written (0: none)
+	EndEv       int64
+	Status      int
+	Statuses    []int // every WriteHeader call
+	Returned    bool
+	Implicit200 bool
+	Panicked    string
+	StartT      time.Time
+	EndT        time.Time
+	Cancelled   bool
+	Hostile     bool
+	Root        string
+	BodyLen     int
 }
 
 type respWriter struct {
@@ -296,6 +297,11 @@ func (st *runState) client(sim *simrt.Sim, sys *System, ci int, c Client) {
 			sys.Router.ServeHTTP(rw, req)
 		}()
 		cancel()
+		if rec.Panicked == "" && rec.StatusEv == 0 {
+			// a handler that returns without writing anything makes net/http answer 200 OK
+			rw.WriteHeader(200)
+			rec.Implicit200 = true
+		}
 		rec.EndEv = st.nextEv()
 		rec.EndT = time.Now()
 		rec.Returned = true
